@@ -14,8 +14,9 @@ from pbt.core import Result, silence, exc_sig
 
 ID = "C26"
 LEVEL = "exploration"
-EXAMPLES = {"quick": 4800, "thorough": 120000}
-SHRINK_S = {"quick": 8, "thorough": 40}
+EXAMPLES = {"quick": 4800, "thorough": 100000}
+SHRINK_S = {"quick": 5, "thorough": 40}
+DEADLINE_S = {"quick": 900, "thorough": 3000}   # cap only; a quick run takes ~50 s on an idle 16-core machine
 RULE = ("Hypothesis draws a network recipe (netgen.grid with 30 % out-of-service probability and 50 % open switches, plus "
         "module-local additions: extra dclines / impedances / tcsc / parallel lines between arbitrary buses, extra and "
         "re-drawn bus-bus, line, trafo and trafo3w switches, out-of-service buses incl. the slack bus, custom element index "
@@ -104,7 +105,7 @@ def expected_graph(recipe, pot, o):
     inc_oos = o.get("include_out_of_service", False)
     nogo = set(o.get("nogo") or [])
     notrav = set(o.get("notrav") or [])
-    nodes = {i for i in range(len(bus_is)) if (bus_is[i] or inc_oos) and i not in nogo}
+    nodes = {i for i in range(len(bus_is)) if (bus_is[i] or inc_oos or o.get("_keep_oos_buses")) and i not in nogo}
     respect = o.get("respect_switches", True)
     edges = []
     for p in pot:
@@ -294,13 +295,14 @@ def _options(draw, recipe, pot, risky):
     if draw(st.integers(0, 4)) == 0:
         o["switch_length_km"] = draw(netgen.q(0.0, 2.0, nd=1))
     # shapes of the known notravbuses / integer-argument defects are avoided by construction in most cases
-    avoid = not _p(draw, 0.08) or AVOID_ALL
+    # (a non-boundary value of the range: Hypothesis over-represents the ends)
+    avoid = draw(st.integers(0, 24)) not in (7, 11, 17) or AVOID_ALL
     nogo = []
     if draw(st.integers(0, 2)) == 0 and nb > 2:
         nogo = draw(st.lists(st.sampled_from(buses), unique=True, min_size=1, max_size=2))
         o["nogo"] = nogo
         o["nogo_form"] = draw(st.sampled_from(["list", "set", "array"]))
-        if not avoid and len(nogo) == 1 and _p(draw, 0.3):
+        if not avoid and len(nogo) == 1 and _p(draw, 0.5):
             o["nogo_form"] = "int"
     if draw(st.integers(0, 2)) == 0:
         cand = [b for b in buses if b not in nogo and not (avoid and b in risky)]
@@ -375,7 +377,7 @@ def known_shape(recipe, pot, o, include_oos):
         return None
     bus_is = [bool(b.get("in_service", True)) for b in recipe["buses"]]
     o2 = dict(o)
-    o2["include_out_of_service"] = True     # edges as they are before the out-of-service buses are removed
+    o2["_keep_oos_buses"] = True     # edges as they are before the out-of-service buses are removed
     o2["notrav"] = []
     nodes, edges, _ = expected_graph(recipe, pot, o2)
     dangling = False
@@ -407,35 +409,45 @@ def graph_kwargs(o, maps):
     return kw
 
 
-def edge_reason(p, o, nodes, recipe):
-    """facts about one potential edge under one option set (root-cause part of an edge signature)"""
+def edge_reason(p, o, kind, recipe, frm=None):
+    """decisive facts about one potential edge under one option set (root-cause part of an edge signature):
+    extra edge   -> the rules that exclude it; missing edge -> the option that overrides a would-be exclusion"""
     bus_is = [bool(b.get("in_service", True)) for b in recipe["buses"]]
+    respect = o.get("respect_switches", True)
+    inc_oos = bool(o.get("include_out_of_service", False))
     r = []
+    subset = False
     if p["T"] == "switch":
         if not o.get("include_switches", True):
             r.append("switches-excluded")
-        if p["cut"]:
-            r.append("open")
     else:
         inc = o.get("include", {}).get(p["T"], True)
         if inc is False:
             r.append("type-excluded")
         elif inc is not True:
-            r.append("in-subset" if p["ord"] in inc["sel"] else "not-in-subset")
-        if not p["ins"]:
+            subset = True
+            if p["ord"] not in inc["sel"]:
+                r.append("not-in-subset")
+    oos_el = not p["ins"]
+    oos_bus = not (bus_is[p["a"]] and bus_is[p["b"]])
+    if kind == "extra":
+        if oos_el and not inc_oos:
             r.append("element-oos")
-        if p["cut"]:
+        if p["cut"] and respect:
             r.append("open-switch")
-    if not (bus_is[p["a"]] and bus_is[p["b"]]):
-        r.append("bus-oos")
-    if p["a"] in (o.get("nogo") or []) or p["b"] in (o.get("nogo") or []):
-        r.append("nogobus")
-    if p["a"] in (o.get("notrav") or []) or p["b"] in (o.get("notrav") or []):
-        r.append("notravbus")
-    if not o.get("respect_switches", True):
-        r.append("switches-ignored")
-    if o.get("include_out_of_service"):
-        r.append("incl-oos")
+        if oos_bus and not inc_oos:
+            r.append("bus-oos")
+        if p["a"] in (o.get("nogo") or []) or p["b"] in (o.get("nogo") or []):
+            r.append("nogobus")
+        if frm in (o.get("notrav") or []):
+            r.append("from-notravbus")
+    else:
+        if subset:
+            r.append("in-subset")
+        if p["cut"] and not respect:
+            r.append("open-switch-ignored")
+        if (oos_el or oos_bus) and inc_oos:
+            r.append("oos-included")
     return "+".join(r) or "plain"
 
 
@@ -490,7 +502,7 @@ def compare_graph(res, G, recipe, pot, o, maps, nodes, adj, edges):
             for kind, keys in (("extra", extra), ("missing", missing)):
                 for key in sorted(keys):
                     p = potmap.get((key[0], key[1], frozenset((n, v))))
-                    why = edge_reason(p, o, nodes, recipe) if p else "no-such-connection"
+                    why = edge_reason(p, o, kind, recipe, frm=n) if p else "no-such-connection"
                     res.fail("edges/%s/%s/%s" % (kind, key[0], why), frm=maps["bus"][n], to=maps["bus"][v], key=list(key),
                              multi=multi, opt=o)
                     ok = False
